@@ -228,3 +228,41 @@ func H_c14_conn_write() {
 	}
 	symReach("end")
 }
+
+// C14 K2c: writes at and above the 16-bit length limit (concrete content):
+// the length field, the payload carried and the returned count agree
+func H_c14_write_big() {
+	serial := symInt(0, 1) == 1
+	n := [...]int{255, 256, 65535, 65536, 70000}[symInt(0, 4)]
+	p := make([]byte, n)
+	for i := range p {
+		p[i] = byte(i*7 + 3)
+	}
+	dataOut := make(chan []byte, 8)
+	conn := &tncConn{dataOut: dataOut, ctrlIn: newBroadcaster(), eofChan: make(chan struct{}), isTCP: !serial}
+	type res struct {
+		n   int
+		err error
+	}
+	done := make(chan res, 1)
+	go func() {
+		k, err := conn.Write(p)
+		done <- res{k, err}
+	}()
+	f := <-dataOut
+	conn.ctrlIn.Send(ctrlMsg{cmd: cmdBuffer, value: 1})
+	r := <-done
+	symBudget(200000000)
+	symAssert(r.err == nil && r.n > 0 && r.n <= len(p), "write-returns-the-number-of-bytes-accepted")
+	if serial {
+		symAssert(len(f) >= 6 && f[0] == 'D' && f[1] == ':', "serial-prefix")
+		c := refCRC(f[2 : len(f)-2])
+		symAssert(f[len(f)-2] == byte(c>>8) && f[len(f)-1] == byte(c), "crc-over-length-and-payload")
+		f = f[2 : len(f)-2]
+	}
+	announced := int(f[0])<<8 | int(f[1])
+	symAssert(announced == len(f)-2, "length-field-equals-bytes-that-follow (no 16-bit wrap)")
+	symAssert(announced == r.n, "returned-count-equals-bytes-framed")
+	symAssert(bytes.Equal(f[2:], p[:r.n]), "frame-carries-the-first-n-bytes-written")
+	symReach("end")
+}
